@@ -153,18 +153,30 @@ class P(Prop):
         rng = self.rng
         c = gen.circuit(rng, n_in=(1, 3), n_gates=(1, 6), max_arity=3, dead=False, consts=0.1, p_out=0.4,
                         out_inputs=rng.choice([0.0, 0.0, 0.3]))
-        gen.add_flops(rng, c, n_flops=(1, 3), connect_all=True)
+        ios = [x for x in sorted(c.io()) if x[-1:] == "0" and len(x) > 1]
+        if ios and rng.random() < 0.25:
+            # a flop instance called exactly like a primary input / output net (`a0` next to the net `a0`): legal, and
+            # the per-flop initial-value dict is keyed by instance names
+            x = rng.choice(ios)
+            gen.add_flops(rng, c, n_flops=(1, 1), connect_all=True, inst=x[:-1])
+            self.stats.bump("names:flop-named-like-io-net")
+            if rng.random() < 0.5:
+                gen.add_flops(rng, c, n_flops=(1, 2), connect_all=True)
+        else:
+            gen.add_flops(rng, c, n_flops=(1, 3), connect_all=True)
         if rng.random() < 0.2:
             c.add("zp", "input", output=True)        # a feed-through output that drives nothing (K34)
         return c
 
-    def check_seq(self, c, steps, afo, iv, ru):
+    def check_seq(self, c, steps, afo, iv, ru, ign=None):
         cj = c_to_json(c)
+        if ign is None:
+            ign = ["clk"]
         case = {"fn": "sequential_unroll", "c": cj, "n": steps, "add_flop_outputs": afo, "initial_values": iv,
-                "remove_unloaded": ru}
+                "remove_unloaded": ru, "ignore_pins": ign}
         flops = sorted(c.blackboxes)
         unconnected_q = [f for f in flops if not c.fanout(f"{f}.q")]
-        o, r = call(cg.tx.sequential_unroll, c, steps, "d", "q", ["clk"], afo, iv, ru)
+        o, r = call(cg.tx.sequential_unroll, c, steps, "d", "q", ign, afo, iv, ru)
         self.search_cases += 1
         if o != "ok":
             self.fail("search", f"sequential_unroll-raised-{o}" + (":unconnected-q" if unconnected_q and ru else ""),
@@ -232,8 +244,23 @@ class P(Prop):
                         self.fail("search", "sequential_unroll-flop-outputs",
                                   f"add_flop_outputs={afo} but {dn} output={uc.is_output(dn)}", case)
                         return
-        if any(".clk" in n or n.endswith("_clk") and n.startswith("ff") for n in uc.graph.nodes):
-            self.fail("search", "sequential_unroll-ignored-pin", "an ignored pin survived", case)
+        pinlike = [n for n in uc.graph.nodes for f in flops if f"{f}.clk" in n or f"{f}_clk" in n]
+        if pinlike and not any(f"{f}_clk" in x for x in c.graph.nodes for f in flops):
+            self.fail("search", "sequential_unroll-ignored-pin", f"an ignored pin survived: {sorted(pinlike)[:3]}", case)
+            return
+        # the interface: outputs are exactly the per-step copies of the original outputs (+ the flop data nodes on request)
+        want_out = {io_map[o_][t] for o_ in c.outputs() for t in range(steps)}
+        if afo:
+            want_out |= {io_map[f"{f}_d"][t] for f in flops for t in range(steps)}
+        if set(uc.outputs()) != want_out:
+            self.fail("search", "sequential_unroll-outputs",
+                      f"outputs of the unrolled circuit: unexpected {sorted(set(uc.outputs()) - want_out)[:4]}, "
+                      f"missing {sorted(want_out - set(uc.outputs()))[:4]}", case)
+            return
+        known_nodes = {x for lst in io_map.values() for x in lst}
+        stray = [i for i in uc.inputs() if i not in known_nodes]
+        if stray:
+            self.fail("search", "sequential_unroll-inputs", f"inputs that the io map does not name: {sorted(stray)[:4]}", case)
 
     def corpus(self):
         # K16: a node named like the per-step io copy
@@ -261,7 +288,7 @@ class P(Prop):
                 c = self.gen_seq()
                 flops = sorted(c.blackboxes)
                 iv = self.rand_iv(flops)
-                sq = (rng.randint(1, 4), rng.random() < 0.5, iv, rng.random() < 0.5)
+                sq = (rng.randint(1, 4), rng.random() < 0.5, iv, rng.random() < 0.5, rng.choice([["clk"], "clk", ["clk"], ("clk",)]))
                 self.check_seq(c, *sq)
                 self.again_after_edit(c, lambda: self.check_seq(c, *sq), p=0.3, exclude=("relabel",))
             if self.too_many():
@@ -270,7 +297,8 @@ class P(Prop):
     def replay(self, case):
         c = c_from_json(case["c"])
         if case.get("fn") == "sequential_unroll":
-            self.check_seq(c, case["n"], case["add_flop_outputs"], case["initial_values"], case["remove_unloaded"])
+            self.check_seq(c, case["n"], case["add_flop_outputs"], case["initial_values"], case["remove_unloaded"],
+                           case.get("ignore_pins"))
         else:
             self.check_unroll(c, case["n"], case["state_io"])
 
